@@ -49,6 +49,10 @@ func c08BiasJSON(e c08Entry) M {
 		m = M{"name": "criteriaOmission", "props": M{"ratio": 0.34}}
 	case 2:
 		m = M{"name": "preferenceReversal", "props": M{"ratio": 0.34}}
+	case 4:
+		m = M{"name": " ", "props": M{}}
+	case 5:
+		m = M{"props": M{"ratio": 0.5}}
 	default:
 		m = M{"name": "noSuchBias", "props": M{}}
 	}
@@ -111,7 +115,7 @@ var c08Cache map[string]*c08Obs
 func c08Observe(req M, draws []float64) (*c08Obs, string) {
 	key := ""
 	if c08Cache != nil && draws != nil {
-		key = string(J(req))
+		key = fmt.Sprint(draws) + string(J(req))
 		if o, ok := c08Cache[key]; ok {
 			return o, ""
 		}
@@ -184,7 +188,7 @@ func c08CheckList(c *Case, list []c08Entry, draws []float64) (*c08Obs, []Violati
 	if len(o.resp.Biases) != len(enabled) {
 		return o, []Violation{viol(c, "C08/entry-count", "response has %d bias entries for %d enabled biases", len(o.resp.Biases), len(enabled))}
 	}
-	names := []string{"fatigue", "criteriaOmission", "preferenceReversal", "noSuchBias"}
+	names := []string{"fatigue", "criteriaOmission", "preferenceReversal", "noSuchBias", " ", ""}
 	for i, x := range enabled {
 		b := o.resp.Biases[i]
 		wantP := 1.0
@@ -208,6 +212,33 @@ func c08CheckList(c *Case, list []c08Entry, draws []float64) (*c08Obs, []Violati
 			vs = append(vs, viol(c, "C08/rejected", "request without the disabled entries rejected: %s", e2))
 		} else if !bytes.Equal(o.body, o2.body) {
 			vs = append(vs, viol(c, "C08/disabled-not-absent", "a request with disabled entries answers differently from the same request without them"))
+		}
+	}
+	// a non-firing entry changes nothing: the result and the other entries' reports equal those of the list WITHOUT the
+	// entry, with its activation draw removed from the script so that the other positions keep their draws
+	for i := range enabled {
+		if o.fired[i] || draws == nil {
+			continue
+		}
+		without := append(append([]c08Entry{}, enabled[:i]...), enabled[i+1:]...)
+		d2 := append(append([]float64{}, draws[:i]...), draws[i+1:]...)
+		o4, e4 := c08Observe(c08Request(without, actSeed), d2)
+		if o4 == nil {
+			vs = append(vs, viol(c, "C08/rejected", "request without the non-firing entry rejected: %s", e4))
+			continue
+		}
+		same := bytes.Equal(o.result, o4.result) && len(o4.resp.Biases) == len(enabled)-1
+		for j := 0; same && j < len(o4.resp.Biases); j++ {
+			k := j
+			if j >= i {
+				k = j + 1
+			}
+			if !bytes.Equal(J(o.resp.Biases[k]), J(o4.resp.Biases[j])) {
+				same = false
+			}
+		}
+		if !same {
+			vs = append(vs, viol(c, "C08/non-firing-not-a-no-op", "bias %d did not fire, yet the response differs from the one for the same list without that entry (draws realigned)", i))
 		}
 	}
 	// a non-firing entry changes nothing: same result and same other reports as with p = 0 at that position
@@ -286,7 +317,7 @@ func c08Run(s *Shard) {
 		}
 		menu = append(menu, c08Entry{k, true, k + 1}) // a disabled entry's probability is irrelevant: one variant each
 	}
-	menu = append(menu, c08Entry{3, true, 0}, c08Entry{3, true, 2})
+	menu = append(menu, c08Entry{3, true, 0}, c08Entry{3, true, 2}, c08Entry{4, true, 0}, c08Entry{5, true, 0}) // unknown, blank and missing names (disabled)
 	var lists [][]c08Entry
 	lists = append(lists, nil)
 	for _, a := range menu {
